@@ -37,7 +37,7 @@ ASSUME = [
     "(C06_quiet_refuted) - SQLiteImpl.compare_server_default reports a difference on a matching database",
     "an upgrade rendered without batch mode that contains an operation SQLite cannot ALTER may fail loudly; such a run is outside the property",
 ]
-RULE = ("ALL 380 ordered pairs of distinct catalogue types on one indexed column, 12 pairs altering one column in two or three respects at once (type / nullability / server default), then seeded random schema pairs: A = 1-4 tables (pk "
+RULE = ("default pool includes parenthesised texts that begin and end with a string literal, ('q'), which SQLite reflects without the parentheses (order of un-wrapping in compare_server_default) || ALL 380 ordered pairs of distinct catalogue types on one indexed column, 12 pairs altering one column in two or three respects at once (type / nullability / server default), then seeded random schema pairs: A = 1-4 tables (pk "
         "column + 0-5 columns over a 20-entry type catalogue, ~35% with a server default from a 19-entry catalogue of Python-string and "
         "text() defaults; 0-3 named unique constraints / indexes; 0-2 named foreign keys, single- or two-column, to a table of lower or "
         "equal name incl. self-reference, ~45% with ON UPDATE / ON DELETE / DEFERRABLE / INITIALLY options in upper, lower and mixed case), B = A after 0-6 random changes from 18 kinds (tables/columns added or dropped, nullability, "
